@@ -4,7 +4,14 @@ import (
 	"bytes"
 	"context"
 	"fmt"
+	"math"
 	"reflect"
+	"sort"
+	"strings"
+	"time"
+
+	"go.flow.arcalot.io/pluginsdk/atp"
+	"verif/harness/sched"
 
 	"github.com/fxamacker/cbor/v2"
 	"go.flow.arcalot.io/pluginsdk/schema"
@@ -132,6 +139,10 @@ func echoInputs() []any {
 		"not a map at all",
 		with("f", 1e10),
 		with("n", map[string]any{"k": "k", "v": []any{1, 2, 3, 4, 5}}),
+		// (19..21) valid again: non-finite floats - CBOR carries them, the schemas without bounds accept them
+		with("d", map[any]any{1: math.Inf(1), 2: math.Inf(-1)}),
+		with("a", map[string]any{"nan": math.NaN(), "inf": []any{math.Inf(1), 1.5}}),
+		with("f", math.Inf(-1), "d", map[any]any{7: math.NaN()}),
 	}
 }
 
@@ -186,4 +197,144 @@ func inProcess(plug *schema.CallableSchema, runID string, stepID string, payload
 		return echoExpect{Err: fmt.Sprintf("cbor: %v", err)}
 	}
 	return echoExpect{OutputID: id, Wire: w}
+}
+
+// ------------------------------------------------------------------ the "waitsig" step (C05: signals reach the run they are addressed to)
+// Its output is the token its signal handler was given, so a signal that reaches another run shows up as
+// another run's result.
+type waitsigData struct{ ch chan string }
+
+type tokIn struct {
+	Token string `json:"token"`
+}
+
+func waitsigStep() schema.CallableStep {
+	in := schema.NewScopeSchema(schema.NewStructMappedObjectSchema[stepIn]("WaitIn", map[string]*schema.PropertySchema{
+		"name": prop(schema.NewStringSchema(nil, nil, nil)),
+		"beh":  prop(schema.NewStringSchema(nil, nil, nil)),
+	}))
+	out := schema.NewScopeSchema(schema.NewStructMappedObjectSchema[stepOut]("WaitOut", map[string]*schema.PropertySchema{
+		"message": prop(schema.NewStringSchema(nil, nil, nil)),
+	}))
+	tokScope := schema.NewScopeSchema(schema.NewStructMappedObjectSchema[tokIn]("Tok", map[string]*schema.PropertySchema{
+		"token": prop(schema.NewStringSchema(nil, nil, nil)),
+	}))
+	tok := schema.NewCallableSignal[*waitsigData, tokIn]("tok", tokScope, nil, func(_ context.Context, d *waitsigData, in tokIn) {
+		select {
+		case d.ch <- in.Token:
+		default:
+		}
+	})
+	return schema.NewCallableStepWithSignals[*waitsigData, stepIn](
+		"waitsig", in,
+		map[string]*schema.StepOutputSchema{"success": schema.NewStepOutputSchema(out, nil, false)},
+		map[string]schema.CallableSignal{"tok": tok},
+		map[string]*schema.SignalSchema{},
+		nil,
+		func() *waitsigData { return &waitsigData{ch: make(chan string, 4)} },
+		func(_ context.Context, d *waitsigData, in stepIn) (string, any) {
+			select {
+			case t := <-d.ch:
+				return "success", stepOut{Message: t}
+			case <-time.After(4 * time.Second):
+				return "success", stepOut{Message: "no signal arrived"}
+			}
+		},
+	)
+}
+
+// runSharedSig: sc.Runs overlapping calls of "waitsig" that were all given ONE signalsToStep channel; one signal per
+// run, addressed by its run ID, sent in the rotated order sc.Seed.  Every call must return the token addressed to it
+// (what CallStep + CallSignal return in-process).
+func runSharedSig(sc scenario, res *result) {
+	w := &world{sc: sc, res: map[string]*execResult{}, spawned: map[string]bool{}}
+	w.s = sched.New(sched.Free)
+	w.s.Classify = classify
+	atp.VerifHook = w.s.Hook
+	defer func() { atp.VerifHook = nil }()
+	w.c2s = sched.NewPipe("c2s", w.s, sc.Cap)
+	w.s2c = sched.NewPipe("s2c", w.s, sc.Cap)
+	ctx, cancel := context.WithCancel(context.Background())
+	defer cancel()
+	plug := w.plugin()
+	srvC := make(chan int, 1)
+	go func() {
+		errs := atp.RunATPServer(ctx, sched.ReadEnd{P: w.c2s}, sched.WriteEnd{P: w.s2c}, plug)
+		w.s2c.CloseWrite()
+		srvC <- len(errs)
+	}()
+	cli := atp.NewClientWithLogger(sched.Duplex{In: w.s2c, Out: w.c2s}, nil)
+	if _, err := cli.ReadSchema(); err != nil {
+		res.FollowErr = "handshake: " + err.Error()
+		return
+	}
+	shared := make(chan schema.Input)
+	type ret struct {
+		id string
+		r  atp.ExecutionResult
+	}
+	rets := make(chan ret, len(sc.Runs))
+	for _, rs := range sc.Runs {
+		rs := rs
+		w.res[rs.ID] = &execResult{St: "none"}
+		go func() {
+			rets <- ret{rs.ID, cli.Execute(schema.Input{RunID: rs.ID, ID: "waitsig", InputData: map[string]any{"name": rs.ID, "beh": "ok"}}, shared, nil)}
+		}()
+	}
+	w.s.WaitSettled(stepTimeout) // every call has registered and its write loop waits on the shared channel
+	n := len(sc.Runs)
+	for k := 0; k < n; k++ {
+		id := sc.Runs[(k+int(sc.Seed))%n].ID
+		w.s.Emit(sched.GoID(), "e.sig", map[string]any{"run": id}) // the caller addresses its next signal (before the send)
+		select {
+		case shared <- schema.Input{RunID: id, ID: "tok", InputData: map[string]any{"token": "token for " + id}}:
+		case <-time.After(3 * time.Second):
+			res.FollowErr = "nobody takes a signal from the shared channel"
+			return
+		}
+	}
+	deadline := time.After(12 * time.Second)
+	for k := 0; k < n; k++ {
+		select {
+		case x := <-rets:
+			e := w.res[x.id]
+			e.Returns++
+			if x.r.Error != nil {
+				e.St, e.Err = "err", x.r.Error.Error()
+				continue
+			}
+			e.St, e.Output = "ok", x.r.OutputID
+			if m, ok := x.r.OutputData.(map[any]any); ok {
+				e.Got, _ = m["message"].(string)
+			} else if m, ok := x.r.OutputData.(map[string]any); ok {
+				e.Got, _ = m["message"].(string)
+			}
+			e.TokenOK = e.Got == "token for "+x.id
+		case <-deadline:
+			res.Stuck = true
+			for _, g := range sched.BlockedSDK() {
+				res.StuckDetail = append(res.StuckDetail, fmt.Sprintf("%s [%s] %s", w.s.Role(g.ID), g.State, strings.TrimSpace(g.Top)))
+			}
+			sort.Strings(res.StuckDetail)
+			k = n
+		}
+	}
+	close(shared)
+	closed := make(chan error, 1)
+	go func() { closed <- cli.Close() }()
+	select {
+	case <-closed:
+	case <-time.After(8 * time.Second):
+		res.Stuck = true
+		res.StuckDetail = append(res.StuckDetail, "Close does not return")
+	}
+	select {
+	case <-srvC:
+		res.ServerRet = true
+	case <-time.After(3 * time.Second):
+	}
+	for id, e := range w.res {
+		res.Results[id] = *e
+	}
+	res.Events = w.s.Events()
 }
